@@ -394,12 +394,33 @@ func (c *Check) withdrawSite(fn *ssa.Function, send *ssa.Call) {
 	c.Ob("R2", inst+": balance zeroed on ok-edge of send", send.Pos(), zeroStore != nil, "record balance is not set to zero after a successful payout")
 	okPersist := false
 	if zeroStore != nil && persist != nil {
-		okPersist = instrDominates(zeroStore, persist)
-		// and every success return reachable after the send passes through persist
+		// every success return that can follow the zeroing passes a persist of the record after it (whether the persist
+		// is the branch's own or a shared tail after the branches join)
+		okPersist = true
+		isPersist := func(i ssa.Instruction) bool {
+			x, isC := i.(*ssa.Call)
+			if !isC {
+				return false
+			}
+			f := x.Call.StaticCallee()
+			if f == nil || persistsParam(f) < 0 {
+				return false
+			}
+			pi := persistsParam(f)
+			return pi < len(x.Call.Args) && x.Call.Args[pi] == ssa.Value(obj)
+		}
+		n := 0
 		for _, r := range successReturns(fn) {
-			if okEdgeAt(r.Block(), send) && !mustPassFrom(fn, send, r, func(i ssa.Instruction) bool { return i == persist }) {
+			if !reachableFrom(zeroStore, r) {
+				continue
+			}
+			n++
+			if !mustPassFrom(fn, zeroStore, r, isPersist) {
 				okPersist = false
 			}
+		}
+		if n == 0 {
+			okPersist = false
 		}
 	}
 	c.Ob("R2", inst+": zeroed record persisted after payout", send.Pos(), okPersist, "after a successful payout the zeroed record is not persisted on every success path")
